@@ -385,6 +385,10 @@ func cInt(cs Case, k string) int {
 	f, _ := cs[k].(float64)
 	return int(f)
 }
+func cBool(cs Case, k string) bool {
+	b, _ := cs[k].(bool)
+	return b
+}
 func cStrs(cs Case, k string) []string {
 	if ha, ok := cs[k+"_hex"].([]interface{}); ok {
 		var r []string
